@@ -143,7 +143,7 @@ def mc_and_gen(cfgs, tier, timeout):
             r["error"] = r["rc"] != 0
         else:
             r = run_tlc("MCWallet.tla", cfg, "mc_" + cfg.replace(".cfg", ""), timeout=timeout, prefer=tuple(FOCUS))
-        if r["error"] and not r["completed"] and r["rc"] == 124 and r["states"] > 0 and not r["violated"]:
+        if r["error"] and not r["completed"] and r["rc"] in (124, 137) and r["wall_s"] >= timeout - 5 and r["states"] > 0 and not r["violated"]:
             # the time budget of the exploration ran out: what was explored and printed is used,
             # the evidence says the bounded space was not exhausted
             log("  MC %s: INCOMPLETE - time budget (%ds) exhausted after %d distinct states" % (cfg, timeout, r["states"]))
